@@ -67,8 +67,11 @@ func init() {
 					a[1] = []float64{1, -1}[c.rng.Intn(2)] * (70 + c.rng.Float64()*19)
 				}
 			}
-			if c.rng.Intn(10) == 0 {
+			switch c.rng.Intn(10) {
+			case 0:
 				d = 0
+			case 1: // a step, a hand, a finger: short distances are distances
+				d = []float64{0.002, 0.01, 0.05, 0.06, 0.5, 3, 40}[c.rng.Intn(7)]
 			}
 			p2 := geo.PointAtBearingAndDistance(a, bearing, d)
 			c.emit(map[string]interface{}{"k": "gbear", "res": um(geo.DistanceHaversine(a, p2) - d), "nt": 1})
